@@ -274,8 +274,14 @@ def run_exit(ctx, exe, driver, rnd, viol):
         igs_s = "N" if not ig else "+".join(hx(t.encode()) for t in ig)
         cases.append("C01 pipex files 1 1 1 1 0 %s h %s %s" % (";".join(items), igs_s, hx(b"{0}")))
         meta.append((d, files, ig))
+    # stdin: an empty stream, a stream without a match, a stream with matches
+    for body in [b"", b"x\nax\n", b"a\nk:v\nx\nlast"]:
+        cases.append("C01 pipex reader 1 1 1 1 0 r/%s/. h N %s" % (hx(body), hx(b"{0}")))
+        meta.append((root, None, [], body))
     runs = 0
-    for (d, files, ig), case, ans in zip(meta, cases, model_answers(driver, cases)):
+    for m4, case, ans in zip(meta, cases, model_answers(driver, cases)):
+        d, files, ig = m4[0], m4[1], m4[2]
+        stdin = m4[3] if len(m4) > 3 else None
         if not ans.startswith("ok "):
             viol("cli-model-answer", case=case, model=ans)
             continue
@@ -287,9 +293,10 @@ def run_exit(ctx, exe, driver, rnd, viol):
             args += ["-i", t]
         par = ["--workers", str(rnd.pick([1, 2, 4])), "--batch", str(rnd.pick([1, 3, 1000])), "--readers", str(rnd.pick([1, 2, 3]))]
         for sub in ("filter", "histo"):
-            cmd = [exe, "--nocolor", "--noformat", sub] + args + par + files
+            cmd = [exe, "--nocolor", "--noformat", sub] + args + par + (files if files is not None else rnd.pick([[], ["-"]]))
             try:
-                p = subprocess.run(cmd, cwd=d, stdout=subprocess.PIPE, stderr=subprocess.PIPE, timeout=60)
+                p = subprocess.run(cmd, cwd=d, input=stdin, stdin=(subprocess.DEVNULL if stdin is None else None),
+                                   stdout=subprocess.PIPE, stderr=subprocess.PIPE, timeout=60)
             except subprocess.TimeoutExpired:
                 viol("cli-exit-hang", case=case, cmd=" ".join(cmd[1:]))
                 continue
@@ -400,8 +407,15 @@ def run_extra(ctx):
                 missing = collections.Counter(keys) - collections.Counter(got)
                 viol("cli-filter-keys", case=case, cmd=" ".join(cmd[1:]), cwd=d,
                      unexpected=[k.hex() for k in list(extra)[:3]], missing=[k.hex() for k in list(missing)[:3]])
-            elif (w, r) == (1, 1) and len(files) == 1 and got != keys:
+            elif w == 1 and len(files) == 1 and got != keys:
+                # one worker, one file: the output is in input order for every --readers / --batch
                 viol("cli-filter-order", case=case, cmd=" ".join(cmd[1:]), cwd=d)
+            elif w == 1 and ex.startswith("{src}:") and any(
+                    [k for k in got if k.startswith(f.encode() + b":")] != [k for k in keys if k.startswith(f.encode() + b":")]
+                    for f in files):
+                # one worker, several files (any --readers): every file's matches in the file's line order
+                # (theorem single_worker_file_order); lines of different files may interleave
+                viol("cli-filter-file-order", case=case, cmd=" ".join(cmd[1:]), cwd=d)
             # ---- histo (same classification, keys counted)
             if (w, b, r) == combos[0] or rnd.intn(2) == 0:
                 out_csv = os.path.join(d, "h.csv")
